@@ -88,6 +88,8 @@ def gen_cases(rng, tier):
             elif kind == "solver":
                 op["options"] = {"ipopt.max_iter": rng.choice([0, 1, 2, 3]), "ipopt.print_level": 0, "print_time": False,
                                  "ipopt.hessian_approximation": "limited-memory"}
+                # the user's own options dictionary edited in place and passed again (same object)
+                op["inplace"] = rng.random() < 0.4
             elif kind == "set_T":
                 if spec["T"]["kind"] != "num":
                     continue
@@ -112,6 +114,18 @@ def gen_cases(rng, tier):
                         {"op": "sample"}]
                 pos = rng.randint(0, len(ops))
                 ops = ops[:pos] + scen + ops[pos:]
+        if i % 5 == 1:
+            # scenario family: solver settings changed between two solves (fresh or the same dictionary object)
+            mi = rng.choice([2, 3])
+            scen = [{"op": "solve"},
+                    {"op": "solver", "inplace": rng.random() < 0.6,
+                     "options": {"ipopt.max_iter": mi, "ipopt.print_level": 0, "print_time": False,
+                                 "ipopt.hessian_approximation": "limited-memory"}},
+                    {"op": "solve"}]
+            if rng.random() < 0.5:
+                ops = ops + scen
+            else:
+                ops = scen + ops
         if not any(o["op"] in QUERIES for o in ops):
             ops.insert(rng.randint(0, len(ops)), {"op": "sample"})
         ops.append({"op": rng.choice(["sample", "solve"])})
@@ -182,6 +196,7 @@ def run_case(case):
         res["violations"].append(C.exc_violation(ID, e, "declare"))
         return res
     ocp = b.ocp
+    live_opts = spec["solver_options"]      # the dictionary object handed to ocp.solver by build_ocp
     transcribed = False
     pending_edits = []      # edits made after a transcription that have not been confronted with a fresh OCP yet
     can_solve = spec["method"].get("intg") in (None, "rk", "expl_euler")
@@ -254,7 +269,12 @@ def run_case(case):
                                 p["value"] = np.tile(old, (1, reps))[:, :ncol].tolist()
                                 ocp.set_value(b.syms[p["name"]], build.param_value(p))
                 elif k == "solver":
-                    ocp.solver("ipopt", op["options"])
+                    if op.get("inplace"):
+                        live_opts.clear()
+                        live_opts.update(copy.deepcopy(op["options"]))
+                    else:
+                        live_opts = copy.deepcopy(op["options"])
+                    ocp.solver("ipopt", live_opts)
                 elif k == "set_T":
                     ocp.set_T(op["value"])
                 elif k == "set_t0":
